@@ -99,8 +99,20 @@ pub struct Section {
     base: u64,
 }
 
+/// set by the process' own housekeeping thread (the non-termination monitor) while it works; measured sections wait for it to
+/// finish and it stays idle while a section is open, so its allocations never show up in a reading
+pub static HOUSEKEEPING_BUSY: AtomicBool = AtomicBool::new(false);
+
+pub fn section_open() -> bool {
+    ON.load(Ordering::SeqCst)
+}
+
 /// start a measured section (single-threaded use; the process must be otherwise quiet)
 pub fn start() -> Section {
+    ON.store(true, Ordering::SeqCst);
+    while HOUSEKEEPING_BUSY.load(Ordering::SeqCst) {
+        std::hint::spin_loop();
+    }
     let base = LIVE.load(Ordering::SeqCst);
     PEAK.store(base, Ordering::SeqCst);
     ALLOCS.store(0, Ordering::SeqCst);
